@@ -133,11 +133,15 @@ def run_job(j):
     ids = np.arange(H * W, dtype=np.int64).reshape(H, W)
     idarrs = [lay(ids.astype(a.dtype) if a.dtype.kind != "f" or H * W < 2 ** 20 else ids, lo)
               for a, lo in zip(arrs, layouts)]
-    it = []
-    for comb in np.nditer(idarrs):
-        t = [int(x.item()) for x in comb]
-        it.append(t[0] if len(set(t)) == 1 else -1)
-    case["iter"] = it
+    def order_of(**kw):
+        it = []
+        for comb in np.nditer(idarrs, **kw):
+            t = [int(x.item()) for x in comb]
+            it.append(t[0] if len(set(t)) == 1 else -1)
+        return it
+    case["iter"] = order_of(order=j.get("order", "C"))     # the order the modelled code asks for
+    case["iterK"] = order_of()                              # numpy's default order 'K'
+
     out, errors = {}, {}
 
     def call(label, fn, enc, **kw):
